@@ -340,3 +340,258 @@ Proof.
     rewrite (IHx w3 f (w4 ++ String "," (s ++ rest)) H3) by (first [lia | apply follow_ws; [assumption|reflexivity]]).
     rewrite skip_ws_app by assumption. rewrite skip_ws_head by reflexivity. cbn. rewrite (IHm f rest) by lia. reflexivity.
 Qed.
+
+(* a whole text: a rendering between optional whitespace *)
+Definition json_text (d : json) (text : string) : Prop :=
+  exists w1 s w2, wsp w1 /\ wsp w2 /\ renders max_depth d s /\ text = w1 ++ s ++ w2.
+
+Theorem parse_json_text d text : json_text d text -> parse_json text = JOk (norm d).
+Proof.
+  intros (w1 & s & w2 & H1 & H2 & Hs & ->). unfold parse_json.
+  rewrite (proj1 parser_reads_renderings max_depth d s Hs w1 _ w2 H1).
+  - rewrite (skip_ws_all w2 H2). reflexivity.
+  - rewrite !slen_app. lia.
+  - rewrite <- (sapp_nil_r w2). apply follow_ws; [assumption|reflexivity].
+Qed.
+
+(* ---------------------------------------------------------------- member lookup *)
+
+Lemma obj_get_set m k x name :
+  obj_get (obj_set m k x) name = if String.eqb k name then Some x else obj_get m name.
+Proof.
+  induction m as [|[n w] m IH]; cbn [obj_set obj_get].
+  - destruct (String.eqb_spec k name); reflexivity.
+  - destruct (String.eqb_spec n k) as [E|E]; cbn [obj_get].
+    + subst n. destruct (String.eqb_spec k name); reflexivity.
+    + rewrite IH. destruct (String.eqb_spec n name) as [E2|E2]; [|reflexivity].
+      destruct (String.eqb_spec k name) as [E3|E3]; [congruence|reflexivity].
+Qed.
+
+Lemma obj_get_fold ms acc name :
+  obj_get (fold_left (fun m kv => obj_set m (fst kv) (snd kv)) ms acc) name =
+  match last_member ms name with Some x => Some x | None => obj_get acc name end.
+Proof.
+  revert acc. induction ms as [|[n w] ms IH]; intros acc; cbn [fold_left last_member fst snd]; [reflexivity|].
+  rewrite IH. destruct (last_member ms name); [reflexivity|]. rewrite obj_get_set.
+  destruct (String.eqb n name); reflexivity.
+Qed.
+
+(* looking a name up in the decoded map = the last member of that name as written *)
+Lemma obj_get_dedup ms name : obj_get (dedup ms) name = last_member ms name.
+Proof. unfold dedup. rewrite obj_get_fold. destruct (last_member ms name); reflexivity. Qed.
+
+Lemma last_member_norm m name :
+  last_member (map normkv m) name = option_map norm (last_member m name).
+Proof.
+  induction m as [|[n w] m IH]; cbn [map last_member normkv fst snd]; [reflexivity|].
+  rewrite IH. destruct (last_member m name); cbn [option_map]; [reflexivity|].
+  destruct (String.eqb n name); reflexivity.
+Qed.
+
+(* a document without repeated member names is decoded as written *)
+Fixpoint names_distinct (d : json) : Prop :=
+  match d with
+  | JArr l => (fix all (l : list json) : Prop :=
+                 match l with [] => True | x :: l' => names_distinct x /\ all l' end) l
+  | JObj m => NoDup (map fst m) /\
+              (fix all (m : list (string * json)) : Prop :=
+                 match m with [] => True | kv :: m' => names_distinct (snd kv) /\ all m' end) m
+  | _ => True
+  end.
+
+Lemma obj_set_fresh acc k x : ~ In k (map fst acc) -> obj_set acc k x = (acc ++ [(k, x)])%list.
+Proof.
+  induction acc as [|[n w] acc IH]; cbn [obj_set map fst In app]; [reflexivity|].
+  intros H. destruct (String.eqb_spec n k) as [E|E]; [tauto|]. rewrite IH by tauto. reflexivity.
+Qed.
+
+Lemma dedup_fold_nodup ms acc :
+  NoDup (map fst acc ++ map fst ms)%list ->
+  fold_left (fun m kv => obj_set m (fst kv) (snd kv)) ms acc = (acc ++ ms)%list.
+Proof.
+  revert acc. induction ms as [|[n w] ms IH]; intros acc H; cbn [fold_left fst snd].
+  - now rewrite app_nil_r.
+  - cbn [map fst] in H. rewrite obj_set_fresh.
+    + rewrite IH; [now rewrite <- app_assoc|]. rewrite map_app. cbn [map fst]. rewrite <- app_assoc. exact H.
+    + apply NoDup_remove_2 in H. intros X. apply H. apply in_or_app. now left.
+Qed.
+
+Lemma dedup_nodup ms : NoDup (map fst ms) -> dedup ms = ms.
+Proof. intros H. unfold dedup. now rewrite dedup_fold_nodup. Qed.
+
+Lemma norm_distinct d : names_distinct d -> norm d = d.
+Proof.
+  revert d. fix IH 1. intros d. destruct d as [| | | |l|m]; cbn [norm names_distinct]; try reflexivity.
+  - intros H. f_equal. induction l as [|x l IHl]; cbn [map]; [reflexivity|].
+    destruct H as [Hx Hl]. rewrite (IH x Hx), (IHl Hl). reflexivity.
+  - intros [Hn H]. f_equal.
+    assert (E : map (fun kv : string * json => (fst kv, norm (snd kv))) m = m).
+    { clear Hn. induction m as [|[n x] m IHm]; cbn [map fst snd]; [reflexivity|].
+      destruct H as [Hx Hm]. cbn [snd] in Hx. rewrite (IH x Hx), (IHm Hm). reflexivity. }
+    rewrite E. apply dedup_nodup. exact Hn.
+Qed.
+
+(* ---------------------------------------------------------------- navigation *)
+
+(* one access of a chain: the FieldAccessExpr's position, the position of its field name, and
+   the name / the digits of the index *)
+Inductive xstep := XName (p sp : nat) (name : string) | XIdx (p sp : nat) (data : string).
+
+Definition step_of (x : xstep) : step :=
+  match x with XName _ _ n => SName n | XIdx _ _ d => SIdx (Z.to_nat (num_value d)) end.
+
+(* the index of a NumberExpr the lexer can produce (digits only) is not negative *)
+Definition xstep_ok (x : xstep) : Prop :=
+  match x with XIdx _ _ d => (0 <= num_value d)%Z | XName _ _ _ => True end.
+
+Definition access_node (base : expr) (x : xstep) : expr :=
+  match x with
+  | XName p sp n => EAccess p base (EStr sp n)
+  | XIdx p sp d => EAccess p base (ENum sp d)
+  end.
+
+(* base[x1][x2]...[xn] *)
+Fixpoint chain (base : expr) (xs : list xstep) : expr :=
+  match xs with
+  | [] => base
+  | x :: xs' => chain (access_node base x) xs'
+  end.
+
+(* json(text) of a text whose top-level value is not an object has no members *)
+Definition json_top (d : json) : json := match d with JObj _ => d | _ => JObj [] end.
+
+Section Nav.
+Variable fo : fops.
+Variable re_match : bytes -> bytes -> res bool.
+Notation jeval := (jeval fo re_match).
+Notation of_json := (of_json fo).
+
+Lemma nth_norm l n :
+  match nth_error (map norm l) n with Some x => of_json x | None => Ok (JV (VStr "")) end =
+  of_json (norm (nth n l (JStr ""))).
+Proof.
+  revert n. induction l as [|x l IH]; intros [|n]; cbn [map nth_error nth]; try reflexivity. apply IH.
+Qed.
+
+Lemma jeval_access k v base x :
+  jeval k v (access_node base x) =
+  match jeval k v base with
+  | Ok lft => access fo base (match x with XName _ sp n => EStr sp n | XIdx _ sp d => ENum sp d end) lft
+  | Err e => Err e | Panic => Panic | OutOfModel => OutOfModel
+  end.
+Proof. destruct x; reflexivity. Qed.
+
+(* one step: the access twin on the decoded value = the documented step on the document *)
+Lemma access_nav base x j0 j1 lv :
+  nav1 j0 (step_of x) = Some j1 -> xstep_ok x -> of_json (norm j0) = Ok lv ->
+  access fo base (match x with XName _ sp n => EStr sp n | XIdx _ sp d => ENum sp d end) lv =
+  of_json (norm j1).
+Proof.
+  intros Hn Hx Hv. destruct j0 as [| | |s|l|m]; cbn [norm Json.of_json] in Hv.
+  - destruct x; discriminate.
+  - destruct x; discriminate.
+  - destruct x; discriminate.
+  - injection Hv as <-. destruct s as [|c s]; [|destruct x; discriminate].
+    destruct x; cbn in Hn; injection Hn as <-; reflexivity.
+  - injection Hv as <-. destruct x as [p sp n|p sp d]; [discriminate|]. cbn in Hn. injection Hn as <-.
+    cbn [access list_access]. unfold index_list. cbn in Hx.
+    destruct (Z.ltb_spec (num_value d) 0); [lia|]. apply nth_norm.
+  - injection Hv as <-. destruct x as [p sp n|p sp d]; [|discriminate]. cbn in Hn. injection Hn as <-.
+    cbn [access dict_access]. rewrite obj_get_dedup. change (fun kv : string * json => (fst kv, norm (snd kv))) with normkv.
+    rewrite last_member_norm. destruct (last_member m n); reflexivity.
+Qed.
+
+(* a step applies only to values that are decoded without consulting the float oracle *)
+Lemma nav1_some_ok j0 s j1 : nav1 j0 s = Some j1 -> exists lv, of_json (norm j0) = Ok lv.
+Proof.
+  destruct j0 as [| | |t|l|m]; cbn [norm Json.of_json]; try (destruct s; discriminate); intros _; eexists; reflexivity.
+Qed.
+
+Theorem navigate_chain k v xs : forall base j0 j,
+  jeval k v base = of_json (norm j0) ->
+  Forall xstep_ok xs ->
+  navigate j0 (map step_of xs) = Some j ->
+  jeval k v (chain base xs) = of_json (norm j).
+Proof.
+  induction xs as [|x xs IH]; intros base j0 j Hb Hok Hn; cbn [map navigate chain] in *.
+  - injection Hn as <-. exact Hb.
+  - destruct (nav1 j0 (step_of x)) as [j1|] eqn:E1; [|discriminate].
+    inversion Hok as [|? ? Hx Hxs]; subst.
+    destruct (nav1_some_ok _ _ _ E1) as [lv Hlv].
+    apply (IH (access_node base x) j1 j); [|assumption|assumption].
+    rewrite jeval_access, Hb, Hlv. apply (access_nav base x j0 j1 lv E1 Hx Hlv).
+Qed.
+
+(* the value of json(arg) is the decoded top-level object *)
+Lemma jeval_json_call k v p np arg a text d :
+  eval fo re_match k v arg = Ok a -> conv_bytes fo a = Some text -> json_text d text ->
+  jeval k v (ECall p (EName np "json") [arg]) = of_json (norm (json_top d)).
+Proof.
+  intros Ha Hc Ht. cbn [Json.jeval]. change (is_json_call (EName np "json")) with true. cbv iota.
+  rewrite Ha. unfold func_json. rewrite Hc, (parse_json_text d text Ht).
+  destruct d; reflexivity.
+Qed.
+
+(* json(arg)[x1]...[xn] = the documented navigation into the document the text denotes *)
+Theorem json_navigate_lemma k v p np arg a text d xs j :
+  eval fo re_match k v arg = Ok a -> conv_bytes fo a = Some text -> json_text d text ->
+  Forall xstep_ok xs ->
+  navigate (json_top d) (map step_of xs) = Some j ->
+  jeval k v (chain (ECall p (EName np "json") [arg]) xs) = of_json (norm j).
+Proof.
+  intros Ha Hc Ht Hok Hn.
+  apply (navigate_chain k v xs _ (json_top d) j); [|assumption|assumption].
+  apply (jeval_json_call k v p np arg a text d Ha Hc Ht).
+Qed.
+
+(* where the documented navigation does not apply (a name on an array, an index on an object,
+   any step from a non-empty string, a number, a Boolean, null) the twin reports an
+   ExecuteError -- or is outside the model when a number outside the float oracle is in the way *)
+Lemma chain_err k v xs : forall base e, jeval k v base = Err e -> jeval k v (chain base xs) = Err e.
+Proof.
+  induction xs as [|x xs IH]; intros base e H; cbn [chain]; [exact H|].
+  apply IH. rewrite jeval_access, H. reflexivity.
+Qed.
+Lemma chain_oom k v xs : forall base, jeval k v base = OutOfModel -> jeval k v (chain base xs) = OutOfModel.
+Proof.
+  induction xs as [|x xs IH]; intros base H; cbn [chain]; [exact H|].
+  apply IH. rewrite jeval_access, H. reflexivity.
+Qed.
+
+Lemma access_none base x j0 :
+  nav1 j0 (step_of x) = None ->
+  match of_json (norm j0) with
+  | Ok lv => access fo base (match x with XName _ sp n => EStr sp n | XIdx _ sp d => ENum sp d end) lv
+             = Err (EExec (epos base))
+  | OutOfModel => True
+  | _ => False
+  end.
+Proof.
+  intros Hn. destruct j0 as [| | |s|l|m]; cbn [norm Json.of_json].
+  - destruct x; reflexivity.
+  - destruct x; reflexivity.
+  - destruct (f_parse fo numeral); try exact I. destruct x; reflexivity.
+  - destruct s as [|c s]; [destruct x; discriminate|]. destruct x; reflexivity.
+  - destruct x; [reflexivity|discriminate].
+  - destruct x; [discriminate|reflexivity].
+Qed.
+
+Theorem navigate_chain_none k v xs : forall base j0,
+  jeval k v base = of_json (norm j0) ->
+  Forall xstep_ok xs ->
+  navigate j0 (map step_of xs) = None ->
+  (exists pos, jeval k v (chain base xs) = Err (EExec pos)) \/ jeval k v (chain base xs) = OutOfModel.
+Proof.
+  induction xs as [|x xs IH]; intros base j0 Hb Hok Hn; cbn [map navigate chain] in *; [discriminate|].
+  inversion Hok as [|? ? Hx Hxs]; subst.
+  destruct (nav1 j0 (step_of x)) as [j1|] eqn:E1.
+  - destruct (nav1_some_ok _ _ _ E1) as [lv Hlv].
+    apply (IH (access_node base x) j1); [|assumption|assumption].
+    rewrite jeval_access, Hb, Hlv. apply (access_nav base x j0 j1 lv E1 Hx Hlv).
+  - pose proof (access_none base x j0 E1) as A.
+    destruct (of_json (norm j0)) as [lv| | |] eqn:E; try contradiction.
+    + left. exists (epos base). apply chain_err. rewrite jeval_access, Hb. exact A.
+    + right. apply chain_oom. rewrite jeval_access, Hb. reflexivity.
+Qed.
+
+End Nav.
